@@ -75,7 +75,17 @@ SOURCES = ["1vii_sustiva_water.pdb", "4OH9.pdb", "2EQQ.pdb", "bpti.pdb", "1bpi.p
 _cache = {}
 
 
+# thorough tier: every 30-th case also runs in a worker whose extensions are ASan/UBSan-instrumented (vlib/sanitize.py)
+ASAN_EVERY = {"quick": 0, "thorough": 30}
+GROUPS = {"thorough": [dict(name="asan", flavour="asan", workers=2)]}
+
+
 def gen_cases(tier, seed):
+    from vlib.gen import common as _common
+    return _common.with_asan_slice(_gen_cases(tier, seed), ASAN_EVERY[tier])
+
+
+def _gen_cases(tier, seed):
     n = NCASES[tier]
     for i in range(n * len(FAMILIES)):
         fam = FAMILIES[i % len(FAMILIES)]
